@@ -107,11 +107,13 @@ def parse_contracts(path):
     return out
 
 
-def run_rwsx(src_rel, items):
+def run_rwsx(src_rel, items, world=()):
     src = os.path.join(REPO, src_rel)
     if not os.path.exists(src):
         raise Undecided("LOST-ANCHOR: source file missing: " + src)
-    p = subprocess.run([RWSX, src] + items, capture_output=True, text=True)
+    env = dict(os.environ)
+    env["RWSX_WORLD"] = ",".join(world)     # R-WORLD: the functions that get the ghost world parameter (unit definition)
+    p = subprocess.run([RWSX, src] + items, capture_output=True, text=True, env=env)
     if p.returncode != 0:
         raise Undecided("rwsx failed on %s: %s" % (src_rel, p.stderr.strip()))
     text, _, meta = p.stdout.rpartition("//@@META ")
@@ -269,7 +271,7 @@ def compose(unit, workdir):
     all_text = []
     metas = []
     for src_rel, items in unit["sources"]:
-        t, m = run_rwsx(src_rel, items)
+        t, m = run_rwsx(src_rel, items, unit.get("world", ()))
         all_text.append(t)
         metas.extend(m)
     pre = "\n\n".join(all_text)
